@@ -159,6 +159,29 @@ pub fn gen(tier: Tier, rng: &mut Rng64, out: &mut Out) {
         if k == 0 { run("C01.not", &[big.clone()], out); }
         if k % 2 == 1 || thorough { run("C01.ite", &[small.clone(), big.clone(), small.clone()], out); }
     }
+    // --- medium operands: three dense functions over 13 variables (~1 300 nodes each, product of the
+    // sizes > 2^27) through if_then_else / ternary_op / binary operators
+    let mediums = if thorough { 12 } else { 3 };
+    for k in 0..mediums {
+        let n = 13usize;
+        let mk = |rng: &mut Rng64| { let tt: Vec<bool> = (0..(1usize << n)).map(|_| rng.bool()).collect(); fmt_bdd(&bdd_of_tt(n, &tt)) };
+        let (x, y, z) = (mk(rng), mk(rng), mk(rng));
+        run("C01.ite", &[x.clone(), y.clone(), z.clone()], out);
+        let c3 = rng.below(256) as u32;
+        run("C01.ter", &[if k % 2 == 0 { eager_table3(c3) } else { random_table3(rng, c3) }, c3.to_string(), x.clone(), y.clone(), z.clone()], out);
+        run("C01.named", &[s(NAMES[k % NAMES.len()]), x.clone(), y.clone()], out);
+    }
+    // --- one operand with more than 2^21 nodes (thorough only: ~60 MB of text per line)
+    if thorough {
+        let n = 25usize;
+        let tt: Vec<bool> = (0..(1usize << n)).map(|_| rng.bool()).collect();
+        let huge = fmt_bdd(&bdd_of_tt(n, &tt));
+        let lit = |k: usize| fmt_bdd(&bdd_of_tt(n, &(0..(1usize << n)).map(|i| (i >> (n - 1 - k)) & 1 == 1).collect::<Vec<_>>()));
+        let (x0, x1) = (lit(0), lit(1));
+        run("C01.ter", &[eager_table3(0x80), s("128"), x0.clone(), x1.clone(), huge.clone()], out);   // a & b & c, huge in position c
+        run("C01.ter", &[lazy_table3(0xCA), s("202"), x0.clone(), huge.clone(), x1.clone()], out);    // ite, huge in position b
+        run("C01.named", &[s("xor"), x1.clone(), huge.clone()], out);
+    }
     // --- eval_in on all valuations of sampled small functions
     for _ in 0..(if thorough { 2000 } else { 100 }) {
         let n = rng.below(5) as usize;
